@@ -288,6 +288,12 @@ func c02AggStream(w *c02World, st *c02Streams) {
 	w.repeat = false
 	w.evalAgg(st, build(N, v, cyc(q2, qRel)), "relabelled-view-qc-in-pool", n >= 2)
 	w.evalAgg(st, build(N, v, cyc(q1, qGenRel)), "relabelled-genesis-qc-in-pool", n >= 2)
+	// genesis-hash QCs that carry a signature are not the genesis certificate: never the high QC
+	qGenSigned := w.mkQC(w.render(c02Spec{parts: w.genuine(c02Range(1, q), w.mBlock("G"))}), 0, "G")
+	qGenMadeUp := w.mkQC(w.render(c02Spec{parts: []c02Part{{label: uint64(n + 1), signer: 0}}}), 0, "G")
+	w.evalAgg(st, build(N, v, cyc(gQC, qGenSigned, qGenMadeUp)), "signed-genesis-qcs-in-pool", n >= 3)
+	w.evalAgg(st, build(N, v, cyc(qGenSigned, qGenMadeUp)), "only-signed-genesis-qcs", false)
+	w.evalAgg(st, build(N, v, all(w.mkQC(w.render(c02Spec{absent: true, typedNil: true}), 0, "G"))), "genesis-nil-pointer-signature", true)
 	w.evalAgg(st, build(N, v, cyc(q1, qRep)), "repeated-signer-qc-in-pool", n >= 2)
 	w.evalAgg(st, build(N, v, cyc(q5, q1, gQC)), "honest-high-5", true)
 	// behind the successful batch verification: a highest QC whose block is unknown is skipped, one
